@@ -112,6 +112,35 @@ def cflist_applied(c, res):
                 body.path, 'PROVENANCE(channel slots from the CFList)', instance='process_join_accept: slot J+n = None for frequency 0, Channel::new(freq, DR0, DR5) for a valid frequency, untouched otherwise')
 
 
+def cflist_mask_applied(c, res):
+    """fixed plans (CFList type 1): the mask of the accept is installed whenever the accept carries one - the call of channel_mask_set is
+    guarded by nothing but the presence and the type of the CFList, and receives that mask. (channel_mask_set is also what resets the
+    join bias and the join-channel walk: skipping it for a mask 'equal to the current one' leaves the first uplinks of the new session on
+    the sub-band the join went out on, whatever the mask says.)"""
+    cands = [p for p in c.prog.by_short if p.endswith('RegionHandler>::process_join_accept') and 'FixedChannelPlan' in p]
+    if len(cands) != 1:
+        raise CheckError('anchor: FixedChannelPlan::process_join_accept')
+    bf = c.bf(cands[0])
+    sets = [(bb, t) for bb, t in bf.calls() if callee_name(t).endswith('channel_mask_set')]
+    ok, why = len(sets) == 1, '%d calls of channel_mask_set' % len(sets)
+    if ok:
+        bb, t = sets[0]
+        arg = term_of_operand(bf, t.args[1])
+        from_list = term_contains(arg, lambda y: y == ('param', 2))
+        extra = []
+        for cnd in path_conditions(bf, bb):
+            tm = cnd[0]
+            if isinstance(tm, tuple) and tm[:1] == ('discr',) and term_contains(tm, lambda y: y == ('param', 2)) and not term_contains(tm, lambda y: isinstance(y, tuple) and y[:1] == ('call',)):
+                continue            # Some(..) / CfList::FixedChannel(..) of the argument
+            if term_contains(tm, lambda y: isinstance(y, tuple) and y[:1] == ('call',) and isinstance(y[1], str) and y[1].endswith('channel_mask_validate')) and term_contains(tm, lambda y: y == ('param', 2)):
+                continue            # "applied when valid for the region": a validity test of that mask is part of the property
+            extra.append(cnd)
+        ok = from_list and not extra
+        why = 'the mask installed is not the one of the CFList' if not from_list else 'the mask is only installed under %s' % [(term_str(x[0])[:60], x[1]) for x in extra]
+    res.require(ok, 'C11:FixedChannelPlan::process_join_accept:mask-applied', 'the CFList type 1 mask of an accepted JoinAccept is not always applied: %s' % why, bf.body.path,
+                'EXACT-GUARD(channel_mask_set <=> the accept carries a CFList type 1)', instance='fixed plans: process_join_accept installs the CFList mask whenever one is present')
+
+
 def run(tier):
     res = Result(PID)
     c = ctx('ws')
@@ -458,6 +487,7 @@ def run(tier):
     res.require(okp, 'C11:Otaa::handle_rx:cflist', 'the CFList of the accept is not handed to the region', bh.body.path, 'PROVENANCE(CFList)',
                 instance='Otaa::handle_rx: region.process_join_accept(accept.c_f_list())')
     cflist_applied(c, res)
+    cflist_mask_applied(c, res)
     res.coverage.update({'functions': ['Otaa::prepare_buffer', 'JoinRequest::build_into', 'write_mic', 'Otaa::handle_rx', 'check_mic_and_decrypt_in_place', 'validate_mic', 'Mac::handle_rx',
                                        'Otaa::rx2_complete', 'derive_session_key', 'derive_nwkskey', 'derive_appskey', 'Session::derive_new', 'Session::new'] + sorted(JOIN_ACCEPT_FIELDS),
                          'mac_state_writers': sorted(writers), 'configs': [c.info]})
